@@ -133,6 +133,9 @@ def run(ctx):
                 names = {s.a[1] for s in subterms(pair[0][2]) if s.op == "param"}
                 ok = {"commitment", "proof", "pk", "y", "msg", "dst"} <= names
             ctx.ob("E4.pairing", "BlsSignatureProof::verify/ok", ok, "accept only through is_identity(pairing(..)) whose input depends on commitment, proof, pk, y, msg and dst", where=where(f, b))
+    from . import equations as EQ
+
+    EQ.check_pok_equations(ctx, "E5.equation", P)
     # E8: no abort for any timestamp
     A.check_aborts(ctx, "E8", P, ["ProofOfKnowledgeTimestamp<C>::verify"], scope="C10")
     ctx.assume("SystemTime arithmetic: UNIX_EPOCH + Duration::from_millis(u64) cannot overflow the platform's SystemTime range on 64-bit Linux (std contract: u64 ms < 2^63 s)")
